@@ -17,6 +17,13 @@
                each image got exactly one unavailable callback.
    c10_ctrs  - at the operation that closes the client every counter handle alive (according to the life-cycle
                automaton of C09Oracle) gets exactly one unavailable callback and no other registration gets one.
+   c10_chan  - a channel endpoint error (error code 4) is told to the error handler: at the duty cycle that receives it, if the
+               life-cycle automaton of C09Oracle knows a live resource on that channel status indicator (a subscription
+               from its ready answer on, a publication / exclusive publication that has been looked up and is held), the
+               error handler is called with ChannelEndpointException(that id); if it knows of none (and no registration is
+               in an unspecified state) the handler is not called; c10_core adds that ChannelEndpointException is never
+               reported at any other operation nor with another id. Which registrations are ended is C09's statement; the
+               images of the subscriptions ended are closed and reported like all images (c10_imgs).
    What the later events do to the registrations after a fault is judged by C09's automaton, which keeps running
    across the faults. *)
 Require Import V.Base.MachineInt.
@@ -29,11 +36,18 @@ Definition cerr_eqb (a b : cerr) : bool :=
   match a, b with
   | EServiceTimeout, EServiceTimeout | EWasInactive, EWasInactive | EInactive, EInactive
   | EHeartbeatLost, EHeartbeatLost | EClientTimeout, EClientTimeout => true
+  | EChannelEndpoint a, EChannelEndpoint b => a =? b
   | _, _ => false
   end.
 Definition has_err (e : cerr) (cbs : list cb) : bool :=
   existsb (fun c => match c with CbErr e' => cerr_eqb e e' | _ => false end) cbs.
 Definition count_close_cb (cbs : list cb) : nat := length (filter is_close_cb cbs).
+(* ChannelEndpointException is only reported by the duty cycle that received the channel endpoint error, with the id the driver sent *)
+Definition chan_errs_ok (o : op) (cbs : list cb) : bool :=
+  forallb (fun c => match c with
+                    | CbErr (EChannelEndpoint y) => match o with DoWork (BEvent (EvChanError x)) => y =? x | _ => false end
+                    | _ => true
+                    end) cbs.
 Definition is_fine (r : res) : bool := match r with Ok _ | Err _ => true | _ => false end.
 Definition is_okr (r : res) : bool := match r with Ok _ => true | _ => false end.
 
@@ -53,6 +67,7 @@ Definition winit (now0 : Z) : wst := mkW now0 now0 0 0 false false false.
 Definition c10_core_step (c0 tdrv tis : Z) (w : wst) (o : op) (x : out) : option wst :=
   let '(r, cbs, cmds) := x in
   if negb (is_fine r) then None else
+  if negb (chan_errs_ok o cbs) then None else
   let nclose := count_close_cb cbs in
   if (if w_closed w then 0 <? Z.of_nat nclose else 1 <? Z.of_nat nclose) then None else
   let closed_before := w_closed w in
@@ -69,7 +84,7 @@ Definition c10_core_step (c0 tdrv tis : Z) (w : wst) (o : op) (x : out) : option
         | _ => Some w'
         end
       else Some w'
-  | DropHandle _ _ => Some w'
+  | DropHandle _ _ | CloseHandle _ _ => Some w'
   | Close => if closed_after then Some w' else None
   | Tick d => Some (mkW (now + d) (w_tprev w) (w_hb w) (w_hbenv w) (w_bound w) (w_inactive w) closed_after)
   | SetDriverHb t => Some (mkW now (w_tprev w) t (w_hbenv w) (w_bound w) (w_inactive w) closed_after)
@@ -173,5 +188,37 @@ Fixpoint c10_ctrs_run (c0 tdrv : Z) (full : bool) (q : ost) (ops : list op) (out
   | _, _ => true
   end.
 
+(* ------------------------------------------------------------------------------------------------------------ *)
+(* registrations the channel endpoint error for status id x ends / whose state the automaton does not know *)
+Definition chan_hits (x : Z) (p : kind * Z * life) : bool :=
+  match chan_tr (fst (fst p)) x (snd p), snd p with
+  | LGone, LReady _ _ _ _ => true
+  | _, _ => false
+  end.
+Definition chan_unknown (p : kind * Z * life) : bool :=
+  match p with (KSub, _, LAny) | (KPub, _, LAny) | (KXPub, _, LAny) => true | _ => false end.
+
+Fixpoint c10_chan_run (c0 tdrv : Z) (full : bool) (q : ost) (ops : list op) (outs : list out) : bool :=
+  match ops, outs with
+  | o :: ops', x :: outs' =>
+      match c09_step c0 tdrv full q o x with
+      | Next q' =>
+          let cbs := snd (fst x) in
+          let ok :=
+            match o, fst (fst x) with
+            | DoWork (BEvent (EvChanError y)), Ok _ =>
+                if q_closed q then negb (has_err (EChannelEndpoint y) cbs)
+                else if existsb (chan_hits y) (q_regs q) then has_err (EChannelEndpoint y) cbs
+                else if existsb chan_unknown (q_regs q) then true
+                else negb (has_err (EChannelEndpoint y) cbs)
+            | _, _ => true
+            end in
+          if ok then c10_chan_run c0 tdrv (match o with SetRingFull b => b | _ => full end) q' ops' outs' else false
+      | _ => true
+      end
+  | _, _ => true
+  end.
+
 Definition holds_c10 (c0 now0 tdrv tis : Z) (ops : list op) (outs : list out) : bool :=
-  c10_core_run c0 tdrv tis (winit now0) ops outs && c10_imgs_run [] false outs && c10_ctrs_run c0 tdrv false (oinit c0 now0) ops outs.
+  c10_core_run c0 tdrv tis (winit now0) ops outs && c10_imgs_run [] false outs && c10_ctrs_run c0 tdrv false (oinit c0 now0) ops outs
+  && c10_chan_run c0 tdrv false (oinit c0 now0) ops outs.
